@@ -67,6 +67,8 @@ def _micro(ctx, rep, n):
             rep.dist['micro_steps'] += st.get('steps', 0)
             rep.dist['micro_cached_entries_compared'] += st.get('cached_entries', 0)
             rep.dist['micro_buff_registrations_compared_with_spec'] += st.get('buff_registrations_compared', 0)
+            rep.dist['micro_boost_target_sets_compared_with_spec'] += st.get('buff_target_sets_compared', 0)
+            rep.dist['micro_steps_outside_stepok_load_unload'] += st.get('steps_outside_stepok_load_unload', 0)
             if dis:
                 def fails(ops, where=dis['where']):
                     d2 = MC.check(seed, p, ops)[1]
